@@ -3,11 +3,14 @@ package yyflow
 import (
 	"fmt"
 	"go/ast"
+	"go/constant"
 	"go/token"
-	"os"
 	"go/types"
+	"os"
 	"sort"
 	"strings"
+
+	"golang.org/x/tools/go/types/typeutil"
 
 	"verif/internal/report"
 )
@@ -1321,4 +1324,77 @@ func (l *Lang) carrierPresence(shapes map[string]*Shape) map[string]map[string]b
 		l.TreePresence(shapes)
 	}
 	return l.ntNonEmpty
+}
+
+// ---- int-parse-decimal --------------------------------------------------------------------------------
+//
+// A grammar action that has to decide whether a token's text is an integer (the offset of `"$a[12]"` is an
+// integer, the offsets of `"$a[0x1A]"`, `"$a[0b11]"` and `"$a[1_000]"` are strings) does so with an integer
+// parse of the text; PHP's rule is decimal. Every call of an integer-parsing function of strconv in an
+// action must therefore be a decimal parse: Atoi, or ParseInt/ParseUint with the constant base 10 and the
+// platform's or 64-bit size. A base of 0 accepts prefixes and separators, another base other digits.
+// Actions that build a number node from such a token without any integer parse are reported too.
+func (l *Lang) IntParseDecimal() *report.RuleResult {
+	res := report.NewResult("int-parse-decimal")
+	info := l.info()
+	for n := 1; n < len(l.Actions); n++ {
+		a := l.Actions[n]
+		if a == nil || a.Clause == nil {
+			continue
+		}
+		type site struct {
+			pos token.Pos
+			bad string
+		}
+		var sites []site
+		ast.Inspect(a.Clause, func(nd ast.Node) bool {
+			call, ok := nd.(*ast.CallExpr)
+			if !ok {
+				return true
+			}
+			fn, _ := typeutil.Callee(info, call).(*types.Func)
+			if fn == nil || fn.Pkg() == nil || fn.Pkg().Path() != "strconv" {
+				return true
+			}
+			constArg := func(i int) (int64, bool) {
+				if i >= len(call.Args) {
+					return 0, false
+				}
+				if tv := info.Types[call.Args[i]]; tv.Value != nil {
+					return constant.Int64Val(constant.ToInt(tv.Value))
+				}
+				return 0, false
+			}
+			switch fn.Name() {
+			case "Atoi":
+				sites = append(sites, site{call.Pos(), ""})
+			case "ParseInt", "ParseUint":
+				base, ok1 := constArg(1)
+				bits, ok2 := constArg(2)
+				switch {
+				case !ok1 || !ok2:
+					sites = append(sites, site{call.Pos(), "base or size is not a constant"})
+				case base != 10:
+					sites = append(sites, site{call.Pos(), fmt.Sprintf("parses with base %d: PHP decides with a decimal parse (base 0 also accepts 0x/0b/0o prefixes and `_` separators)", base)})
+				case bits != 0 && bits != 64:
+					sites = append(sites, site{call.Pos(), fmt.Sprintf("parses into %d bits: PHP's integer is the platform's 64-bit int", bits)})
+				default:
+					sites = append(sites, site{call.Pos(), ""})
+				}
+			case "ParseFloat", "ParseBool", "Unquote":
+				sites = append(sites, site{call.Pos(), "decides with strconv." + fn.Name() + ", not with an integer parse"})
+			}
+			return true
+		})
+		for i, s := range sites {
+			res.Count("parses", 1)
+			key := fmt.Sprintf("%s:%s/parse#%d", l.L.Label, l.L.G.Key(a.Prod), i+1)
+			if s.bad == "" {
+				res.OK(key, l.Prog.Pos(s.pos), a.Prod.String(), "decimal integer parse")
+			} else {
+				res.Bad(key, l.Prog.Pos(s.pos), a.Prod.String(), "the integer parse that tells an integer from a string "+s.bad)
+			}
+		}
+	}
+	return res
 }
